@@ -137,8 +137,8 @@ claim("C03",
       "Coq: the Go wire shapes (Sem/GoJson.v, validated against the real encoder) and the TypeScript environment with structural inhabitation (Sem/TsSem.v: exact keys, null only where allowed, tuple lengths, enum literal sets, Kind/Data unions); "
       "theorems = the induction steps 'conformance to the Go shape implies inhabitation of the TypeScript form', one per type former. The induction is closed by evaluation on every run: the real TypeScript file is parsed into an environment, compared declaration by declaration with the model, "
       "checked closed and duplicate-free, and every document written by the real Go encoder for random values of every analysed type is checked in Coq to inhabit its declaration.",
-      "Partial: no single theorem over all type graphs (steps + per-document evaluation). Relative to TsSem; no TypeScript compiler offline (syntactic validity = the reader understands the whole file). Trusted: the TypeScript reader, the test binary driver.",
-      "Coq proof (per-former inclusion lemmas) + parsed-declaration correspondence + inhabitation of every real document evaluated in Coq", "DESIGN.md §5 C03")
+      "Global theorem C03_documents_inhabit: under a decidable agreement table between the parsed TypeScript environment and the wire shapes (Sem/TsSim.v, computed on every run for every documented type), every conforming document of any size and depth inhabits its type. Relative to TsSem; no TypeScript compiler offline (syntactic validity = the reader understands the whole file). Trusted: the TypeScript reader, the test binary driver.",
+      "Coq proof (global inhabitation theorem under a computed agreement premise + per-former lemmas) + parsed-declaration correspondence + inhabitation of every real document evaluated in Coq", "DESIGN.md §5 C03")
 
 claim("C04",
       "Coq: the six PL/pgSQL validator templates as an AST with their evaluation over jsonb under three-valued logic (Sem/PgSem.v), the Go wire shapes (Sem/GoJson.v), the single-point corruptions of a document at every position from the five classes (Sem/Corrupt.v), "
